@@ -625,7 +625,7 @@ func runC11(c *Ctx) error {
 
 func runC11x(c *Ctx) error {
 	faulty := &c11Faulty{}
-	s, err := NewStack(StackOpts{Dir: c.TmpDir("c11"), WrapHeaders: func(h repository.Headers) repository.Headers {
+	s, err := NewStack(StackOpts{Dir: c.TmpDir("c11"), MaxTries: 1 << 30, WrapHeaders: func(h repository.Headers) repository.Headers {
 		faulty.Headers = h
 		return faulty
 	}})
